@@ -127,6 +127,16 @@ CHECKS = {
         note="Bounds as in the evidence file; NaN and non-str dict keys are outside the JSON domain; 'large' = 64 KiB; file-system timestamp granularity means equal times are accepted as 'not decreasing'.",
         technique="bounded-exhaustive input enumeration against a reference (identity) model",
     ),
+
+    "C18": dict(
+        engine="E3", category="exploration",
+        text=("Complete product of configurations: 6 process time zones (TZ + tzset; offsets 0, -5/-4, 0/+1, +5:30, +5:45, +12/+13) x modified times of an upstream source and a downstream stored value from 7 instants "
+              "placed on both sides of and inside the zone's repeated DST fall-back hour x fresh_time (none or one of the instants) x the form of each of the three datetimes (naive local with fold, aware UTC, aware +09:00, aware in the process zone); "
+              "run through the real uberjob.run with harness stores, and a second pass with real JsonFileStores and os.utime. Oracle: downstream rewritten <=> instant(D) < max(instant(U), instant(fresh_time))."),
+        design_ref="DESIGN.md section 4, C18",
+        note="'All zones' is represented by six zones; one source -> one stored call (the comparison code is shared by all nodes).",
+        technique="bounded-exhaustive enumeration of configurations against an instant-based reference oracle",
+    ),
 }
 
 NOT_APPLICABLE = {
